@@ -20,6 +20,7 @@ import json, os, re, sys, shutil, time
 from fractions import Fraction
 import framework as F
 import floatbase
+import cov_evidence
 
 sys.path.insert(0, os.path.join(F.VERIF, "translate"))
 import conv2coq as T
@@ -565,7 +566,7 @@ def minimise_failure(binpath, fl, rng):
 def describe_fail(S, fl, mode, why=None):
     d, f, fw = fl["key"]
     got = {0: fl["got"], 6: f"{fl['got']} (outside [-1,1] / outside the target's range / round trip broken)",
-           7: f"to_sample/from_sample disagree: {fl['got']} vs {fl['expected']}", 8: f"panic kind {fl['got']}"}.get(fl["tag"], fl["got"])
+           7: f"entry points disagree (Sample::to_sample vs Sample::from_sample / the module function conv::<src>::to_<dst>; replay the harness_line for all seven): {fl['got']} vs {fl['expected']}", 8: f"panic kind {fl['got']}"}.get(fl["tag"], fl["got"])
     what = {"i2f": "integer -> float conversion is not round_NE(amplitude)/2^(bits-1)",
             "f2i": "float -> integer conversion is not trunc(f*2^(bits-1)) (re-offset for unsigned)",
             "f2f": "f32 <-> f64 conversion is not the exact / correctly rounded value",
@@ -909,8 +910,10 @@ def finish(rep, info, tier, stats, times):
         "evaluations": stats.get("values", 0) + stats.get("oracle", 0),
         "model_vs_crate_evaluations": stats.get("values", 0), "crate_vs_exact_integer_oracle_evaluations": stats.get("oracle", 0),
         "distinct_nontrivial": stats.get("nontrivial", 0), "oracle_nontrivial_evaluations": stats.get("oracle_nontrivial", 0),
-        "rule": "model-vs-crate (coqc vs Sample::to_sample/from_sample, debug and release): integer -> f32/f64: every value of 8-bit formats (thorough: 16-bit), boundary values (MIN.., +-2^k+-1 on the amplitude, MAX), rounding-structured amplitudes (exact ties, tie+-1, carries for both mantissa widths) and random values of wider formats; f32/f64 -> integer: structured patterns of [-1,1) (+-0, subnormals, +-2^-k, 1-ulp, -1, neighbours of j*2^-(bits-1)) + random patterns of the domain + a separate outside-domain stream (>= 1, < -1, NaN, inf); f32 <-> f64 structured + random. crate-vs-oracle: exhaustive <= 16-bit integers (24-bit in release), random + strided sweeps otherwise; thorough release: every f32 bit pattern of [-1,1) for all 12 targets, every 32-bit integer, every f32 -> f64. non-trivial = distinct (conversion, input) in the model-vs-crate set whose exact result needs rounding/truncation (integer wider than the mantissa; f*2^(bits-1) not an integer; f64 value not representable in f32) or that involves an unsigned format",
-        "samples": stats.get("samples", []), "input_distribution": stats.get("hist", {}), "disagreements": stats.get("bad", 0),
+        "rule": "entry points: every model-vs-crate value goes through Sample::to_sample, Sample::from_sample, ToSample::to_sample_, FromSample::from_sample_, both of those again with only a `Duplex<_>` bound in scope, and the module function conv::<src>::to_<dst> (harness/src/direct.rs); `0 r` only if all seven agree (the oracle sweeps use to_sample, from_sample and the module function). model-vs-crate (coqc vs crate, debug and release): f32 -> f32 and f64 -> f64 (the blanket identity impl; model Ok x, c02_same_format) on the f32<->f64 input set; integer -> f32/f64: every value of 8-bit formats (thorough: 16-bit), boundary values (MIN.., +-2^k+-1 on the amplitude, MAX), rounding-structured amplitudes (exact ties, tie+-1, carries for both mantissa widths) and random values of wider formats; f32/f64 -> integer: structured patterns of [-1,1) (+-0, subnormals, +-2^-k, 1-ulp, -1, neighbours of j*2^-(bits-1)) + random patterns of the domain + a separate outside-domain stream (>= 1, < -1, NaN, inf); f32 <-> f64 structured + random. crate-vs-oracle: exhaustive <= 16-bit integers (24-bit in release), random + strided sweeps otherwise; thorough release: every f32 bit pattern of [-1,1) for all 12 targets, every 32-bit integer, every f32 -> f64. non-trivial = distinct (conversion, input) in the model-vs-crate set whose exact result needs rounding/truncation (integer wider than the mantissa; f*2^(bits-1) not an integer; f64 value not representable in f32) or that involves an unsigned format",
+        "samples": stats.get("samples", []),
+        "input_distribution": dict(stats.get("hist", {}), source_regions_never_entered=cov_evidence.regions(PROP, "The float conversion bodies contain no branch (no `if`); the integer twins the unsigned paths call are C01's, whose evidence counts their arms.")),
+        "disagreements": stats.get("bad", 0),
         "floatbase": stats.get("floatbase", {}),
         "timing": dict(times, coq_s=info.get("coq_s")),
         "explanation": "theorems: what Sample::to_sample dispatches to (translated from conv.rs on this run) is the correctly rounded amplitude/2^(bits-1) (int -> float) and trunc(f*2^(bits-1)) re-offset (float -> int, on [-1,1)), in both profiles, with the stated consequences; tie: generated model run by coqc against the crate through the public trait dispatch in both profiles, inside and outside the documented domain, plus the crate against an independent exact-integer oracle",
